@@ -38,6 +38,7 @@ type obs struct {
 	done      bool
 	note      string
 	seen      []seenObs
+	closedByThread              bool
 	finalErrText, parentErrText string
 	parentErrs                  int
 	waitErrText, closeErrText   string
@@ -57,6 +58,8 @@ func build(sp Spec, o *obs) func() {
 		var cs app.ContextScope
 		var full app.Scope
 		var parent app.Scope
+		var wg vsched.WaitGroup
+		inClose := false
 		switch sp.Kind {
 		case "plain":
 			cs = contextscope.New()
@@ -72,13 +75,31 @@ func build(sp Spec, o *obs) func() {
 		case "childof-done", "child-racing":
 			parent = scope.New(scope.Params{})
 			cs = parent
+		case "scope-closing":
+			// the threads are registered tasks of a scope that another goroutine is closing: they
+			// signal their failure while Close waits for them
+			full = scope.New(scope.Params{})
+			cs = full
+			full.AddTasks(len(sp.Threads))
+			full.On(app.BeforeCloseEvent, func(interface{}) error { inClose = true; return nil })
+			wg.Add(1)
+			vsched.Spawn(func() {
+				defer wg.Done()
+				o.closeErr = full.Close()
+				o.closedByThread = true
+			})
 		}
-		var wg vsched.WaitGroup
 		for ti, ops := range sp.Threads {
 			ti, ops := ti, ops
 			wg.Add(1)
 			vsched.Spawn(func() {
 				defer wg.Done()
+				if sp.Kind == "scope-closing" {
+					for !inClose {
+						vsched.Yield()
+					}
+					defer full.DoneTask()
+				}
 				for oi, op := range ops {
 					switch op {
 					case "err":
@@ -153,6 +174,14 @@ func build(sp Spec, o *obs) func() {
 			ch := scope.NewChild(parent, scope.ChildParams{})
 			o.closeErr = ch.Close()
 		}
+		if sp.Kind == "scope-closing" {
+			o.finalErrs = append([]error{}, cs.Errors()...)
+			if want := len(o.appended) + o.kills; (o.closeErr != nil) != (want > 0) {
+				o.note = fmt.Sprintf("Close returned %v although %d errors were signalled while it waited", o.closeErr, want)
+			}
+			o.done = true
+			return
+		}
 		if full != nil {
 			o.waitErr = full.Wait()
 			o.closeErr = full.Close()
@@ -176,7 +205,17 @@ func judge(sp Spec, o *obs) func(x *explore.Exec) *explore.Verdict {
 		if !o.done {
 			return &explore.Verdict{Kind: "not-finished", Clause: "no call blocks forever", Detail: "the main harness thread did not finish"}
 		}
+		if o.note != "" {
+			return &explore.Verdict{Kind: "close-result-while-tasks-signal", Clause: "every appended error is retained and reported by ... waiting on or closing it", Detail: o.note}
+		}
 		want := len(o.appended) + o.kills
+		if sp.Kind == "scope-closing" {
+			// (Close itself may add its own wrapped error: at least the signalled ones are held)
+			if len(o.finalErrs) < want {
+				return &explore.Verdict{Kind: "error-lost-or-duplicated", Clause: "every appended error is retained", Detail: fmt.Sprintf("%d errors signalled while Close waited, Errors() holds %d", want, len(o.finalErrs))}
+			}
+			return nil
+		}
 		if len(o.finalErrs) != want {
 			return &explore.Verdict{Kind: "error-lost-or-duplicated", Clause: "every appended error is retained and reported by the scope's error accessors",
 				Detail: fmt.Sprintf("%d errors appended + %d kills, but Errors() holds %d: %v", len(o.appended), o.kills, len(o.finalErrs), o.finalErrs)}
@@ -319,6 +358,10 @@ func programs(thorough bool) []Spec {
 		Spec{"child", [][]string{{"err", "err()"}, {"perr", "err()"}}, b2},
 		Spec{"child", [][]string{{"err", "err()", "err()"}, {"perr"}, {"perr"}}, b3},
 	)
+	// registered tasks signal their failure while another goroutine is inside Close and waits for them
+	for _, op := range []string{"err", "kill", "stop"} {
+		ps = append(ps, Spec{"scope-closing", [][]string{{op}}, b2}, Spec{"scope-closing", [][]string{{op}, {"err"}}, b3})
+	}
 	// children of a scope that is done / ends concurrently
 	for _, end := range []string{"stop", "kill", "err"} {
 		ps = append(ps, Spec{"childof-done", [][]string{{end}}, 0})
@@ -383,7 +426,7 @@ var _ = errors.New
 
 func init() {
 	fw.Register(&fw.Check{ID: "C12", Level: "model_checking",
-		Rule: "programs = scope kind {plain context scope, isolated, full scope, child sharing the parent's context} x thread programs (all pairs of single operations from {AppendError, Kill, Stop, IsDone, Errors}; curated 2x2; 3x1; batches reported from one re-used, overwritten caller slice; readers that look at Errors/Err after having observed the done signal) plus child creation/closing after and racing with the parent's end; every schedule of the real code with <= bound preemptions (2 threads: 3 quick / 4 thorough; 3 threads: 2 / 3) is executed; oracle: no panic (a double close of the done channel or a negative wait-group counter panics), error count and identity, done signal, a reader that saw the done signal of a never-stopped scope sees its error, Wait/Close report, no deadlock, and the happens-before race oracle on the scope packages' multi-word fields. states = distinct schedule traces",
+		Rule: "programs = scope kind {plain context scope, isolated, full scope, child sharing the parent's context} x thread programs (all pairs of single operations from {AppendError, Kill, Stop, IsDone, Errors}; curated 2x2; 3x1; batches reported from one re-used, overwritten caller slice; readers that look at Errors/Err after having observed the done signal) plus registered tasks that signal while another goroutine is inside Close, plus child creation/closing after and racing with the parent's end; every schedule of the real code with <= bound preemptions (2 threads: 3 quick / 4 thorough; 3 threads: 2 / 3) is executed; oracle: no panic (a double close of the done channel or a negative wait-group counter panics), error count and identity, done signal, a reader that saw the done signal of a never-stopped scope sees its error, Wait/Close report, no deadlock, and the happens-before race oracle on the scope packages' multi-word fields. states = distinct schedule traces",
 		Run: run, Replay: replay,
 		Assumptions: []string{"2-3 concurrent callers; preemption bounds as reported", "word-sized fields (e.g. the closed flag) are outside the race oracle"}})
 }
